@@ -902,6 +902,177 @@ pub fn c12_literal() {
         }
     }
 }
+/// C15 parse half: duration(text) through Program::compile + execute against the independent reader.
+pub fn c15_parse() {
+    let n: u8 = any();
+    crate::sym::assume(n <= 48);
+    let mut bytes: Vec<u8> = Vec::new();
+    for _ in 0..n {
+        bytes.push(any());
+    }
+    let Ok(text) = String::from_utf8(bytes.clone()) else {
+        crate::sym::assume(false);
+        return;
+    };
+    // a bare "0" / "-0" carries no obligation (accepted by Go, pinned by the repository's tests)
+    crate::sym::assume(text != "0" && text != "-0");
+    let mut ctx = Context::default();
+    ctx.add_variable_from_value("s", Value::String(Arc::new(text.clone())));
+    let got = Program::compile("duration(s)").expect("compiles").execute(&ctx);
+    let want = crate::oracle::read_duration_bounds(&bytes);
+    match (&want, &got) {
+        (None, Err(_)) => {}
+        (None, Ok(_)) => check!(false, "a text that is not a sequence of number-plus-unit terms is rejected"),
+        (Some((lo, hi)), Err(_)) => {
+            // an error is allowed for a well-formed text only beyond 64-bit nanoseconds
+            let fits = *lo >= i64::MIN as i128 && *hi <= i64::MAX as i128;
+            check!(!fits, "a well-formed duration text whose value fits 64-bit nanoseconds is accepted");
+        }
+        (Some((lo, hi)), Ok(Value::Duration(d))) => {
+            let ns = d.num_seconds() as i128 * 1_000_000_000 + d.subsec_nanos() as i128;
+            check!(*lo <= ns && ns <= *hi, "duration(text) is the exact nanosecond count the text denotes");
+        }
+        (Some(_), Ok(_)) => check!(false, "duration() returns a duration"),
+    }
+}
+/// C07: a chain of field selections / a presence test over a logging root: the root is evaluated exactly once.
+pub fn c07_select_chain() {
+    let (test, depth): (u8, u8) = (any(), any());
+    crate::sym::assume(test <= 1 && (1..=6).contains(&depth));
+    let log: Arc<Mutex<Vec<usize>>> = Arc::new(Mutex::new(Vec::new()));
+    let l = log.clone();
+    let mut ctx = Context::default();
+    // a map nested `depth` levels deep: {"a": {"a": ... 1}}
+    let mut v = Value::Int(1);
+    for _ in 0..depth {
+        let mut m = std::collections::HashMap::new();
+        m.insert("a".to_string(), v);
+        v = m.into();
+    }
+    ctx.add_function("f0", move || -> Result<Value, ExecutionError> {
+        l.lock().unwrap().push(0);
+        Ok(v.clone())
+    });
+    let path: String = std::iter::repeat(".a").take(depth as usize).collect();
+    let src = if test == 1 { format!("has(f0(){})", path) } else { format!("f0(){}", path) };
+    let got = Program::compile(&src).expect("compiles").execute(&ctx);
+    let calls = log.lock().unwrap().len();
+    check!(calls == 1, "the root of a selection chain is evaluated exactly once");
+    if test == 1 {
+        check!(got == Ok(Value::Bool(true)), "has() of a present path is true");
+    } else {
+        check!(got == Ok(Value::Int(1)), "a selection chain yields the nested member");
+    }
+}
+/// C10: the five macros with a body written over the iteration variable (`x == 2`, `x > 1`, `x in [..]`, ...), against a
+/// fold that evaluates the body once per element in a context that binds only the iteration variable.
+pub fn c10_body_over_variable() {
+    let (mac, recv, body): (u8, u8, u8) = (any(), any(), any());
+    crate::sym::assume(mac <= 4 && recv <= 3 && body <= 7);
+    let name = ["all", "exists", "exists_one", "map", "filter"][mac as usize];
+    let (rtxt, elems): (&str, Vec<Value>) = match recv {
+        0 => ("[1, 2, 3]", vec![Value::Int(1), Value::Int(2), Value::Int(3)]),
+        1 => ("[]", vec![]),
+        2 => ("{1: 'a', 2: 'b'}", vec![Value::Int(1), Value::Int(2)]),
+        _ => ("[2.0, 2u, 5]", vec![Value::Float(2.0), Value::UInt(2), Value::Int(5)]),
+    };
+    let btxt = ["x == 2", "x == 2.0", "x == c", "x == nope", "2 == x", "x > 1", "x in [2, 3]", "x != 2"][body as usize];
+    // a map is folded in an unspecified key order: keep to bodies that cannot fail there
+    crate::sym::assume(!(recv == 2 && body == 3));
+    let mut ctx = Context::default();
+    ctx.add_variable_from_value("c", Value::Int(2));
+    let got = Program::compile(&format!("{}.{}(x, {})", rtxt, name, btxt)).expect("compiles").execute(&ctx);
+    let bprog = Program::compile(btxt).expect("body compiles");
+    let each: Vec<Result<Value, ExecutionError>> = elems
+        .iter()
+        .map(|e| {
+            let mut inner = ctx.new_inner_scope();
+            inner.add_variable_from_value("x", e.clone());
+            bprog.execute(&inner)
+        })
+        .collect();
+    let truth = |r: &Result<Value, ExecutionError>| matches!(r, Ok(Value::Bool(true)));
+    let mut want: Result<Value, ()> = match mac {
+        0 => Ok(Value::Bool(true)),
+        1 => Ok(Value::Bool(false)),
+        2 => Ok(Value::Int(0)),
+        _ => Ok(Value::List(Arc::new(vec![]))),
+    };
+    let mut out: Vec<Value> = vec![];
+    let mut count = 0;
+    for (e, r) in elems.iter().zip(each.iter()) {
+        if r.is_err() {
+            want = Err(());
+            break;
+        }
+        match mac {
+            0 if !truth(r) => {
+                want = Ok(Value::Bool(false));
+                break;
+            }
+            1 if truth(r) => {
+                want = Ok(Value::Bool(true));
+                break;
+            }
+            2 if truth(r) => count += 1,
+            3 => out.push(r.clone().unwrap()),
+            4 if truth(r) => out.push(e.clone()),
+            _ => {}
+        }
+    }
+    if want.is_ok() {
+        match mac {
+            2 => want = Ok(Value::Bool(count == 1)),
+            3 | 4 => want = Ok(Value::List(Arc::new(out))),
+            _ => {}
+        }
+    }
+    match (want, got) {
+        (Err(()), g) => check!(g.is_err(), "an error raised by the body on a reached element aborts the macro"),
+        (Ok(Value::List(w)), Ok(Value::List(g))) if recv == 2 => {
+            let key = |v: &Value| format!("{:?}", v);
+            let (mut a, mut b): (Vec<String>, Vec<String>) = (w.iter().map(key).collect(), g.iter().map(key).collect());
+            a.sort();
+            b.sort();
+            check!(a == b, "map / filter over a map's keys yields the fold's elements");
+        }
+        (Ok(w), g) => check!(g == Ok(w), "the macro computes its defining fold with the body evaluated per element"),
+    }
+}
+/// C08 / C03: unary minus on a double flips the sign bit (IEEE-754), for zeros, infinities and NaN as well.
+pub fn c08_unary_minus_float() {
+    let bits: u64 = any();
+    let f = f64::from_bits(bits);
+    let p = cel_interpreter::Program::compile("-x").unwrap();
+    let mut ctx = cel_interpreter::Context::default();
+    ctx.add_variable_from_value("x", Value::Float(f));
+    let r = p.execute(&ctx);
+    check!(matches!(&r, Ok(Value::Float(v)) if v.to_bits() == (-f).to_bits()), "unary minus on a double is IEEE-754 negation");
+}
+/// C07: a macro applied to a list literal evaluates the receiver's elements first (in order), then the body per element.
+pub fn c07_macro_over_literal() {
+    let (mac, n): (u8, u8) = (any(), any());
+    crate::sym::assume(mac <= 4 && (1..=4).contains(&n));
+    let name = ["all", "exists", "exists_one", "map", "filter"][mac as usize];
+    let log: Arc<Mutex<Vec<i64>>> = Arc::new(Mutex::new(Vec::new()));
+    let (l1, l2) = (log.clone(), log.clone());
+    let mut ctx = Context::default();
+    ctx.add_function("f", move |i: i64| -> i64 {
+        l1.lock().unwrap().push(i);
+        i
+    });
+    // the body's verdict keeps every macro going to the last element
+    let verdict = mac != 1;
+    ctx.add_function("g", move |i: i64| -> bool {
+        l2.lock().unwrap().push(100 + i);
+        verdict
+    });
+    let elems = (0..n).map(|j| format!("f({})", j)).collect::<Vec<_>>().join(", ");
+    let got = Program::compile(&format!("[{}].{}(x, g(x))", elems, name)).expect("compiles").execute(&ctx);
+    check!(got.is_ok(), "the macro evaluates");
+    let want: Vec<i64> = (0..n as i64).chain((0..n as i64).map(|j| 100 + j)).collect();
+    check!(*log.lock().unwrap() == want, "receiver first (its elements left to right), then the body once per element");
+}
 /// C04 visitor half: a run of k prefix operators applies the operator k times (an even run cancels).
 pub fn c04_prefix() {
     let (op, k, operand): (u8, u8, u8) = (any(), any(), any());
@@ -1447,6 +1618,11 @@ crate::replay_only! {
     #[kani::unwind(2)] c04_chain: "off", "chains of 1-64 logging operands under && / ||", "n in 1..64";
     #[kani::unwind(2)] c10_error_element: "off", "the five macros over 1-4 elements with a predicate that fails on one chosen element", "5 macros x lists of 1-4 x failing position x predicate bits";
     #[kani::unwind(2)] c10_literal_predicate: "off", "the five macros with a literal predicate over lists, a map and a non-collection", "5 macros x 2 literals x 5 receivers";
+    #[kani::unwind(2)] c15_parse: "off", "duration(s) through Program::compile + execute against an independent reader of the duration syntax", "text of up to 48 bytes taken from the vector";
+    #[kani::unwind(2)] c07_select_chain: "off", "x.a.a.. / has(x.a.a..) over a logging root through Program::compile + execute", "1-6 levels, plain selection and presence test";
+    #[kani::unwind(2)] c10_body_over_variable: "off", "the five macros with bodies over the iteration variable through Program::compile + execute, against a per-element fold", "5 macros x 4 receivers x 8 bodies";
+    #[kani::unwind(2)] c08_unary_minus_float: "off", "Program::compile + Value::resolve NEGATE arm on a double", "bits: all u64";
+    #[kani::unwind(2)] c07_macro_over_literal: "off", "the five macros over a list literal of logging calls with a logging body, through Program::compile + execute", "5 macros x 1-4 elements";
     #[kani::unwind(2)] c12_literal: "off", "a string / bytes literal token through Program::compile + execute against an independent decoder of the CEL literal syntax", "token text of up to 24 characters taken from the vector";
     #[kani::unwind(2)] c13_string_roundtrip: "off", "int(string(x)) / uint(string(x)) / double(string(x)) through Program::compile + execute", "payload bits from the vector";
     #[kani::unwind(2)] c13_literal: "off", "int / uint literals of every sign, radix and magnitude through Program::compile + execute", "text built from the vector";
